@@ -1334,6 +1334,20 @@ theorem C04_set_value_invalid_name (a : AState) (h : CH) (v : Option V) :
   specSetValue_invalid a h v
 
 -- the hypotheses of the three closed forms are met by concrete states of the documented model
+private def aEx : AState :=
+  { containers := [{ id := 1, nextLoopNum := 1 }], blocks := [{ cid := 1, name := a!"b", nameOrig := a!"b" }], nextId := 2,
+    loops := [{ cid := 1, num := 0, category := none, items := [(a!"_a", a!"_a")], packets := [[.na], [.unk]] }] }
+private def hEx : CH := { id := 1, code := a!"b", isBlock := true }
+private def yEx : ALoop := { cid := 1, num := 1, category := some [], items := [(a!"_s", a!"_s")], packets := [] }
+example := C04_set_value_existing aEx hEx (nm (a!"_a")) (some .na) { cid := 1, loopNum := 0, category := none } rfl rfl
+example := C04_set_value_creates_scalar_loop aEx hEx (nm (a!"_t")) (some .na) { id := 1, nextLoopNum := 1 } rfl rfl rfl rfl rfl
+example := C04_set_value_joins_scalar_loop { aEx with loops := aEx.loops ++ [yEx] } hEx (nm (a!"_t")) (some .na) yEx rfl rfl rfl
+  (by intro z hz hk
+      have hz' : z = { cid := 1, num := 0, category := none, items := [(a!"_a", a!"_a")], packets := [[.na], [.unk]] } ∨ z = yEx := by
+        simpa [aEx] using hz
+      rcases hz' with h1 | h1
+      · subst h1; simp [yEx] at hk
+      · exact h1)
 example : (specGetItemLoop { loops := [{ cid := 1, num := 0, category := none, items := [(a!"_a", a!"_a")], packets := [[.na], [.unk]] }] }
     { id := 1, code := [], isBlock := true } (some (nm (a!"_a")))).toOption.map (·.loopNum) = some 0 := by decide
 example : ((({ containers := [{ id := 1, nextLoopNum := 0 }] } : AState).containers.find? (fun r => r.id == 1)).map (·.nextLoopNum)) = some 0 := by decide
